@@ -117,6 +117,7 @@ def writeAt (f : Bytes) (off : Nat) (data : Bytes) : Bytes :=
 inductive ErrClass where
   | status4xx | status5xx | notFound | transport | canceled | eof | readErr | digest
   | incomplete | invalidManifest
+  | deadline      -- `ReadTimeout` expired: the request's context is cancelled with DeadlineExceeded
 deriving DecidableEq, Repr
 
 /-- how a response body ends after its pieces: clean EOF or a read error (reset, cancellation,
@@ -280,6 +281,10 @@ def applyTask (H : Bytes → D) (v : Variant) (st : Run D) (t : Task D) : ChunkR
 inductive Step where
   | release (k : Nat) (r : ChunkResp)
   | cancel
+  /-- the registry stays silent for longer than `ReadTimeout`: the timer of every waiting chunk
+      request fires and cancels that request (not the pull); chunks launched afterwards get
+      fresh timers -/
+  | timeout
 deriving Repr
 
 def step (H : Bytes → D) (v : Variant) (limit : Option Nat) (st : Run D) : Step → Option (Run D)
@@ -292,6 +297,10 @@ def step (H : Bytes → D) (v : Variant) (limit : Option Nat) (st : Run D) : Ste
   | .cancel =>
     let st1 := { st with cancelled := true, inflight := [],
                          firstErr := if st.inflight.isEmpty then st.firstErr else orElse st.firstErr .canceled }
+    some (advance v limit st1 st1.ops)
+  | .timeout =>
+    let st1 := { st with inflight := [],
+                         firstErr := if st.inflight.isEmpty then st.firstErr else orElse st.firstErr .deadline }
     some (advance v limit st1 st1.ops)
 
 def runSteps (H : Bytes → D) (v : Variant) (limit : Option Nat) : Run D → List Step → Option (Run D)
@@ -433,6 +442,7 @@ def pullHistory (H : Bytes → D) (cfg : Cfg) : Cache D → List (Attempt D) →
 def canRetry : Outcome → Bool
   | .err .status5xx => true
   | .err .readErr => true
+  | .err .deadline => true
   | _ => false
 
 /-- `handlePull`'s loop `for range backoff.Loop { err := Pull(); if canRetry(err) continue; return err }`
